@@ -32,6 +32,18 @@ def run(tier, replay=None):
                     cases.append({"id": "f%d" % i, "extra": {"geom": gk}, "shells": [sa, sb], "ecps": [u]})
                     cases.append({"id": "r%d" % i, "extra": {"geom": gk}, "shells": [sb, sa], "ecps": [u]})
                     pairs.append((i, LA, LB, L, gk))
+    # shells displaced from the ECP centre by 1e-6 .. 1e-3 bohr (either argument position), and on both sides of the 1e-6 switch
+    for k in range(24 if tier == "quick" else 200):
+        LA, LB, L = rng.randint(0, min(maxl, 3)), rng.randint(0, min(maxl, 3)), rng.randint(0, 3)
+        A, B, C = gen.geometry(rng, "distinct")
+        eps = rng.choice([0.5e-6, 2e-6, 1e-5, 1e-4, 5e-4, 0.9e-3, 1.1e-3, 1e-2])
+        P = [c + eps * x for c, x in zip(C, gen.rand_dir(rng))]
+        sa = gen.rand_shell(rng, LA, P, nprim=1, emin=0.5, emax=4.0); sb = gen.rand_shell(rng, LB, B, nprim=1, emin=0.5, emax=4.0)
+        u = gen.rand_ecp(rng, L, C, nper=(1, 1))
+        i = len(cases)
+        cases.append({"id": "f%d" % i, "extra": {"geom": "near-centre"}, "shells": [sa, sb], "ecps": [u]})
+        cases.append({"id": "r%d" % i, "extra": {"geom": "near-centre"}, "shells": [sb, sa], "ecps": [u]})
+        pairs.append((i, LA, LB, L, "near-centre %.1e" % eps))
     tmp = scratch_dir()
     try:
         blocks, _ = pair_k.run_pairs(cases, tmp)
@@ -53,7 +65,11 @@ def run(tier, replay=None):
                     sc2 = max(max(abs(x) for x in f2), max(abs(x) for x in g2), 1e-300)
                     if max(abs(f2[a * c + b] - g2[b * r + a]) for a in range(r) for b in range(c)) <= 1e-6 * sc2:
                         cause = fid; break
-                if cause and all(x in active for x in cause.split("+")):
+                # a recorded numerical finding can explain an asymmetry only if BOTH orders went through the same
+                # (triple-based) radial code: otherwise the two orders took different branches, which is the property itself
+                tf = blocks["f%d" % i].get("trace", [0] * 12); tr_ = blocks["r%d" % i].get("trace", [0] * 12)
+                same_path = (tf[0] + tf[1] > 0) == (tr_[0] + tr_[1] > 0) and (tf[0] + tf[1] > 0)
+                if cause and same_path and all(x in active for x in cause.split("+")):
                     known.setdefault(cause, []).append((i, dv, sc))
                 else:
                     bad.append((i, "class (LA=%d,LB=%d,lambda_max=%d) geometry %s: max |V(A,B) - V(B,A)^T| = %.3e on scale %.3e (restored by: %s)" % (LA, LB, L, gk, dv, sc, cause)))
